@@ -16,6 +16,10 @@
 (*   rset ra, imm      j loc       jz ra, loc                              *)
 (*   i2r ra, in        r2o ra, out     (asynchronous port access)          *)
 (*   r2m ra, addr      m2r ra, addr    (RAM)                               *)
+(*   ro2rri ra, rb     ra = the ROM word at address rb.  The ROM holds the  *)
+(*                     program (addresses 0 .. Len0-1) followed by ND data  *)
+(*                     words DataVal(0 .. ND-1); reading anything else is   *)
+(*                     outside this specification (havoc: the trace ends)   *)
 (* Arithmetic wraps around at 2^RSize.  The external inputs are held at     *)
 (* the values Inputs.  An instruction whose next program counter equals     *)
 (* its own (a jump to itself) is a stuttering step of the trace.           *)
@@ -28,7 +32,7 @@
 (***************************************************************************)
 EXTENDS Integers, Sequences, FiniteSets, TLC, Bitwise
 
-CONSTANTS RSize, R, N, M, L, Len0, Budget, OpSet, InputSeed
+CONSTANTS RSize, R, N, M, L, ND, Len0, Budget, OpSet, InputSeed
 
 Mod == 2 ^ RSize
 Regs == 0 .. 2 ^ R - 1
@@ -36,10 +40,11 @@ Cells == IF L = 0 THEN {} ELSE 0 .. 2 ^ L - 1
 Inputs == [k \in 1 .. N |-> (InputSeed * k + 3) % Mod]        \* the values held on the external inputs
 Imms == {0, 1, 2, 3, Mod - 1, Mod \div 2, Mod \div 2 + 1, 5}
 
-VARIABLES phase, prog, pc, regs, mem, outs, steps
-vars == <<phase, prog, pc, regs, mem, outs, steps>>
+VARIABLES phase, prog, pc, regs, mem, outs, steps, havoc
+vars == <<phase, prog, pc, regs, mem, outs, steps, havoc>>
 
 I(op, a, b) == [op |-> op, a |-> a, b |-> b]
+DataVal(k) == (37 * (k + 1) + 11) % Mod
 
 Unary  == {"clr", "inc", "dec", "cil", "cir"} \cap OpSet
 Binary == {"cpy", "add", "sub", "mult", "and", "or", "xor", "nand", "nor", "xnor", "not"} \cap OpSet
@@ -55,21 +60,27 @@ MemLines    == (IF "r2m" \in OpSet THEN {I("r2m", a, c) : a \in Regs, c \in Cell
 Or0(S) == IF S = {} THEN (IF "nop" \in OpSet THEN {I("nop", 0, 0)} ELSE SetLines \cup UnaryLines \cup BinaryLines) ELSE S
 
 Init ==
-  /\ phase = "build" /\ prog = <<>> /\ pc = 0 /\ steps = 0
+  /\ phase = "build" /\ prog = <<>> /\ pc = 0 /\ steps = 0 /\ havoc = FALSE
   /\ regs = [r \in Regs |-> 0] /\ mem = [c \in Cells |-> 0] /\ outs = [k \in 0 .. M - 1 |-> 0]
 
 Add(l) ==
   /\ phase = "build" /\ Len(prog) < Len0 - 1
   /\ prog' = Append(prog, l)
-  /\ UNCHANGED <<phase, pc, regs, mem, outs, steps>>
+  /\ UNCHANGED <<phase, pc, regs, mem, outs, steps, havoc>>
+\* a ROM read comes with the load of its pointer: rset rb, (address of data word k) ; ro2rri ra, rb
+AddRomRead ==
+  /\ phase = "build" /\ Len(prog) < Len0 - 2 /\ ND > 0
+  /\ \E a \in Regs, b \in Regs, k \in 0 .. ND - 1 :
+       prog' = prog \o <<I("rset", b, Len0 + k), I("ro2rri", a, b)>>
+  /\ UNCHANGED <<phase, pc, regs, mem, outs, steps, havoc>>
 Close ==
   /\ phase = "build" /\ Len(prog) = Len0 - 1
   /\ \E t \in 0 .. Len0 - 1 : prog' = Append(prog, I("j", t, 0))
-  /\ UNCHANGED <<phase, pc, regs, mem, outs, steps>>
+  /\ UNCHANGED <<phase, pc, regs, mem, outs, steps, havoc>>
 Start ==
   /\ phase = "build" /\ Len(prog) = Len0
   /\ phase' = "run"
-  /\ UNCHANGED <<prog, pc, regs, mem, outs, steps>>
+  /\ UNCHANGED <<prog, pc, regs, mem, outs, steps, havoc>>
 
 NotW(x) == Mod - 1 - x                               \* bitwise complement on RSize bits
 Alu(op, x, y) ==
@@ -86,10 +97,12 @@ Alu(op, x, y) ==
     [] op = "not" -> NotW(y)
 
 Exec ==
-  /\ phase = "run" /\ steps < Budget
+  /\ phase = "run" /\ steps < Budget /\ ~havoc
   /\ steps' = steps + 1
   /\ LET l == prog[pc + 1]
-     IN  /\ regs' = CASE l.op = "clr" -> [regs EXCEPT ![l.a] = 0]
+         romOK == l.op = "ro2rri" => regs[l.b] \in Len0 .. Len0 + ND - 1
+     IN  /\ havoc' = ~romOK
+         /\ regs' = CASE l.op = "clr" -> [regs EXCEPT ![l.a] = 0]
                       [] l.op = "inc" -> [regs EXCEPT ![l.a] = (@ + 1) % Mod]
                       [] l.op = "dec" -> [regs EXCEPT ![l.a] = (@ + Mod - 1) % Mod]
                       [] l.op = "cil" -> [regs EXCEPT ![l.a] = (2 * @) % Mod]
@@ -98,6 +111,7 @@ Exec ==
                       [] l.op = "rset" -> [regs EXCEPT ![l.a] = l.b]
                       [] l.op = "i2r" -> [regs EXCEPT ![l.a] = Inputs[l.b + 1]]
                       [] l.op = "m2r" -> [regs EXCEPT ![l.a] = mem[l.b]]
+                      [] l.op = "ro2rri" /\ romOK -> [regs EXCEPT ![l.a] = DataVal(regs[l.b] - Len0)]
                       [] OTHER -> regs
          /\ mem' = IF l.op = "r2m" THEN [mem EXCEPT ![l.b] = regs[l.a]] ELSE mem
          /\ outs' = IF l.op = "r2o" THEN [outs EXCEPT ![l.b] = regs[l.a]] ELSE outs
@@ -114,6 +128,7 @@ Next == \E w \in 1 .. 8 :
                 ELSE IF w = 4 THEN \E l \in Or0(SetLines) : Add(l)
                 ELSE IF w = 5 THEN \E l \in Or0(JumpLines) : Add(l)
                 ELSE IF w <= 7 THEN \E l \in Or0(IOLines) : Add(l)
+                ELSE IF ND > 0 /\ "ro2rri" \in OpSet /\ Len(prog) < Len0 - 2 THEN AddRomRead
                 ELSE \E l \in Or0(MemLines) : Add(l))
           ELSE (w = 1 /\ (Close \/ Start \/ Exec))
 Spec == Init /\ [][Next]_vars
